@@ -546,6 +546,12 @@ impl<'a> PartialOrd for NNumReal<'a> {
             (NNumReal::Int(a), NNumReal::Float(b)) => cmp_nint_f64(a, b),
             (NNumReal::Float(a), NNumReal::Int(b)) => cmp_nint_f64(b, a).map(|ord| ord.reverse()),
             (NNumReal::Float(a), NNumReal::Float(b)) => a.partial_cmp(b),
+            (NNumReal::Rational(_), NNumReal::Float(b)) if b.is_infinite() => {
+                Some(if b.is_sign_positive() { Ordering::Less } else { Ordering::Greater })
+            }
+            (NNumReal::Float(a), NNumReal::Rational(_)) if a.is_infinite() => {
+                Some(if a.is_sign_positive() { Ordering::Greater } else { Ordering::Less })
+            }
             (a, b) => a.exact_to_rational()?.partial_cmp(&b.exact_to_rational()?),
         }
     }
